@@ -7,7 +7,8 @@ VARIABLE row
 Marks == {"none", "bom", "cs:iso-8859-5", "cs:koi8-r"}
 Nodes == {[http |-> h, mark |-> m, text |-> t, fetch |-> f] :
              h \in {"none", "iso-8859-1", "koi8-r"}, m \in Marks, t \in BOOLEAN, f \in {"data", "none", "nonepair"}}
-Sensible(n, override) == /\ (n.mark = "bom" => n.http = "none" /\ override = "none" /\ ~n.text)
+\* (a BOM in bytes that the transport declares to be something else: the transport charset still wins; such nodes are last in their chain)
+Sensible(n, override) == /\ (n.mark = "bom" => override = "none" /\ ~n.text)
                          /\ (n.fetch # "data" => n.http = "none" /\ n.mark = "none" /\ ~n.text)
 Roots == {[override |-> o, mark |-> m, text |-> t] : o \in {"none", "iso-8859-5"}, m \in {"none", "cs:koi8-r", "cs:iso-8859-1"}, t \in BOOLEAN}
 \* (first levels of longer chains; delivered as bytes or as text - a text whose @charset disagrees with its transport charset included)
@@ -33,7 +34,9 @@ EscapeRows == {[kind |-> "escape", target |-> t, cps |-> c, pos |-> p] :
 EditRows == {[kind |-> "edit", root |-> r, chain |-> <<n>>, target |-> t, newenc |-> e, newnode |-> m, how |-> h] :
                 r \in {x \in Roots : x.override = "none"}, n \in {x \in SmallNodes : x.fetch = "data"}, t \in {"root", "child"},
                 e \in {"koi8-r", "iso-8859-5", "utf-8", "none"}, m \in {x \in SmallNodes : x.fetch = "data"},
-                h \in {"text", "object", "settext"}}
+                \* text-upper / text-ws: the @import added as text is spelled @IMPORT / preceded by white space (pure ASCII target: only the
+                \* reported encoding can tell); rejected-charset: an assignment of an unknown encoding to the @charset rule comes first
+                h \in {"text", "object", "settext", "text-upper-ascii", "text-ws-ascii", "text-escaped-ascii", "rejected-charset"}}
 Rows == ChainRows \cup EscapeRows \cup EditRows
 Init == row \in Rows
 Next == UNCHANGED row
